@@ -164,7 +164,7 @@ pub struct World {
     pub coll_mutated: Cell<bool>,
     pub coll_start_alive: Cell<u64>,
     pub last_box_alloc: Cell<(usize, usize)>,
-    pub freed_boxes: RefCell<Vec<usize>>,
+    pub freed_boxes: RefCell<Vec<(usize, u64)>>,
     pub pending_upgrades: RefCell<Vec<u32>>,
     pub harness_errors: RefCell<Vec<String>>,
     pub mode: Cell<Mode>,
